@@ -219,7 +219,8 @@ Section Loader.
         if length counts <? 8 * order then None
         else if negb (Nat.eqb (le32 (skipn off_model_type fixed)) (l_model_type cfg)) then None       (* MatchCheck *)
         else if negb (Nat.eqb (le32 (skipn off_search_version fixed)) (l_search_version cfg)) then None
-        else if (order <? 2) || (max_order <? order) then None                                       (* CheckCounts *)
+        else if (order <? 2) || (max_order <? order) then None                                       (* CheckCounts (its "no unigrams" test is
+                                                                                                         not modelled: it only rejects more) *)
         else
           let has_vocab := negb (Nat.eqb (nth off_has_vocabulary fixed 0) 0) in
           if l_enumerate cfg && negb has_vocab then None
@@ -227,6 +228,7 @@ Section Loader.
             let hdr := header_size order in
             let total := hdr + body_size cfg img in
             if length img <? total then None                                   (* LoadBinary: file shorter than the headers say *)
+            else if negb has_vocab && negb (Nat.eqb (length img) total) then None   (* without strings the file ends exactly with its tables *)
             else if has_vocab then
               let w := skipn total img in
               if negb (list_eqb (firstn 6 w) unk6) then None                  (* ReadWords: "<unk>\0" must be first *)
